@@ -254,6 +254,12 @@ func postRun(res *vf.Result, mf MainFinal, scratch string, cp caps, resets []res
 		res.Count("l0_txid_republished_with_other_content", rewritten)
 	}
 
+	// ---- C01 while the writers run: every acknowledgement observed mid-run promised
+	// that every application commit that had returned before the call was issued is on
+	// the replica when the call returns. The replica "when the call returned" is
+	// the set of level-0 files published up to the archive counter read at that moment.
+	midAcks(res, mf, ar, l0, led, cp, sfx, note, tag)
+
 	// ---- C01: final acknowledged state
 	if mf.SrcCopy != "" && (mf.AckSync || mf.AckClose) {
 		res.Evals++
@@ -414,6 +420,98 @@ func postRun(res *vf.Result, mf MainFinal, scratch string, cp caps, resets []res
 		lastK, lastN = k, n
 	}
 	res.Count("distinct_k_"+tag, len(distinctK))
+}
+
+// midAcks checks the acknowledgements recorded while the application was writing.
+func midAcks(res *vf.Result, mf MainFinal, ar *oracle.Archive, l0 map[int][]archFile, led *ledger, cp caps, sfx, note, tag string) {
+	if len(mf.Acks) == 0 {
+		return
+	}
+	res.Count("mid_acks_observed", len(mf.Acks))
+	// first publication sequence number of each level-0 TXID; TXIDs published more than once
+	firstSeq := map[int]int{}
+	multi := map[int]bool{}
+	var txs []int
+	for n, vs := range l0 {
+		firstSeq[n] = vs[0].Seq
+		for _, v := range vs {
+			if v.Seq < firstSeq[n] {
+				firstSeq[n] = v.Seq
+			}
+		}
+		if len(vs) > 1 {
+			multi[n] = true
+		}
+		txs = append(txs, n)
+	}
+	sort.Ints(txs)
+	type cand struct {
+		a AckObs
+		t int
+	}
+	var cs []cand
+	seenT := map[int]bool{}
+	for _, a := range mf.Acks {
+		t := 0
+		for _, n := range txs {
+			if int64(firstSeq[n]) <= a.Seq && n > t {
+				t = n
+			}
+		}
+		// one representative per (T, K0 above the previous representative's): keep
+		// the acknowledgement with the highest K0 for each T
+		if t == 0 {
+			res.Evals++
+			res.Violate("mid-ack-nothing-stored"+sfx, "%s: %s returned success at t=%.2fs with no level-0 file on the replica%s", tag, a.Op, float64(a.T1)/1e9, note)
+			continue
+		}
+		if seenT[t] {
+			for i := range cs {
+				if cs[i].t == t && a.K0 > cs[i].a.K0 {
+					cs[i].a = a
+				}
+			}
+			continue
+		}
+		seenT[t] = true
+		cs = append(cs, cand{a, t})
+	}
+	sort.Slice(cs, func(i, j int) bool { return cs[i].t < cs[j].t })
+	lim := cp.txids / 2
+	if len(cs) > lim {
+		res.Count("mid_acks_not_checked(cap)", len(cs)-lim)
+	}
+	for _, c := range sample(cs, lim) {
+		rew := false
+		for n := range multi {
+			if n <= c.t {
+				rew = true
+			}
+		}
+		if rew {
+			// a TXID at or below T was published twice (local state reset): which
+			// version the acknowledgement saw is not decidable from the archive
+			res.Count("mid_acks_unverifiable(txid republished)", 1)
+			continue
+		}
+		img, err := ar.Image(c.t)
+		if err != nil {
+			res.Count("mid_acks_unverifiable(archive incomplete)", 1)
+			continue
+		}
+		res.Evals++
+		res.Count("mid_acks_checked", 1)
+		res.Count("mid_acks_checked:"+c.a.Op, 1)
+		k, why := led.consistent(img)
+		if why != "" {
+			res.Count("mid_ack_image_inconsistent", 1) // reported by the TXID pass under its own key
+			res.Logf("%s: replica image at acknowledgement (TXID %d) is not a committed state: %s", tag, c.t, why)
+			continue
+		}
+		if k < c.a.K0 {
+			res.Violate("mid-ack-lost-commit"+sfx, "%s: %s returned success at t=%.2fs; the application commit with ledger k=%d had returned before the call was issued, but the replica as published at that moment (level 0 up to TXID %d) restores ledger k=%d: an acknowledged transaction is not stored%s", tag, c.a.Op, float64(c.a.T1)/1e9, c.a.K0, c.t, k, note)
+		}
+	}
 }
 
 func orOK(s string) string {
